@@ -648,7 +648,7 @@ package xpath
 //@   theory stream
 //@   requires root != nil          // API precondition: a navigator is passed
 //@   ensures[shared-tree-untouched@C04,C05] stateless(expr.q) || k(expr.q) == old(k(expr.q)) && epoch(expr.q) == old(epoch(expr.q))
-//@   ensures[valtype@C15] is(result, bool) || is(result, float64) || is(result, string) || is(result, *NodeIterator) || result == nil && is(expr.q, nopQuery)
+//@   ensures[valtype@C15,C12] is(result, bool) || is(result, float64) || is(result, string) || is(result, *NodeIterator) || result == nil && is(expr.q, nopQuery)
 //@   ensures[iterator-like-select@C12] is(result, *NodeIterator) ==> isFresh(result) && as(result, *NodeIterator).node == root && as(result, *NodeIterator).query != nil && sameKind(expr.q, as(result, *NodeIterator).query)
 //@ func (*Expr).Evaluate$1
 //@   props C15
@@ -2485,6 +2485,8 @@ package xpath
 //@   assume[exhausted-state] xh(u) ==> u.iterator != nil && ixh(u.iterator)
 //@   ensures[exhausted-state@C12] result == nil ==> u.iterator != nil && ixh(u.iterator)
 //@   loop * invariant[one-element-per-key@C11] len(list) == len(m)
+//@   loop 0 invariant[collects-copy@C11] len(list) == at(0, len(list)) || len(list) == at(0, len(list)) + 1 && isFresh(list[len(list) - 1]) && pos(list[len(list) - 1]) == spos(ref(u.Left), epoch(u.Left), k(u.Left) - 1)     // what a round adds to the list is a copy made here (nobody else moves it), standing on the node just delivered
+//@   loop 1 invariant[collects-copy@C11] len(list) == at(1, len(list)) || len(list) == at(1, len(list)) + 1 && isFresh(list[len(list) - 1]) && pos(list[len(list) - 1]) == spos(ref(u.Right), epoch(u.Right), k(u.Right) - 1)
 //@ func (*lastFuncQuery).Select
 //@   props C15 C13
 //@   theory stream for C13
